@@ -31,7 +31,7 @@ pub struct FaultCase {
 const RULE_FAULTS: &str = "generated ledgers (valid, syntax error, uncovered sale, unrated currency, year without exemption) x output arrangements (stdout, --output new file, pre-existing file, missing directory, a directory as target, default PDF path present/absent, missing input file, bad --fx-folder) x formats; oracle: exit code in {0,1,2}, no signal; on failure stdout empty, --output target absent or byte-identical, existing default PDF untouched; non-trivial = the run fails, or writes a file; distinct by input hash + arrangement";
 
 fn strat_fault(t: Tier) -> BoxedStrategy<FaultCase> {
-    (lgen::ledger_strategy(embedded_cfg(t)), 0u8..6, 0u8..9, 0u8..3).prop_map(|(gl, input, fault, fmt)| FaultCase { gl, input, fault, fmt }).boxed()
+    (lgen::ledger_strategy(embedded_cfg(t)), 0u8..6, 0u8..10, 0u8..3).prop_map(|(gl, input, fault, fmt)| FaultCase { gl, input, fault, fmt }).boxed()
 }
 
 fn fmt_name(f: u8) -> &'static str {
@@ -301,6 +301,32 @@ pub fn check_fault(c: &FaultCase, obs: &mut Obs) -> Verdict {
             if o.ok() || !o.stdout.is_empty() || o.stderr.is_empty() {
                 return fail("bad --fx-folder not reported cleanly", &o);
             }
+            Verdict::Pass
+        }
+        // standard output cannot be written (full device): report/parse must end with a clean
+        // error or succeed, never with a panic
+        9 => {
+            let argsets: Vec<Vec<&str>> = if fmt == "pdf" { vec![vec!["parse", input_s.as_str()]] } else { vec![vec!["report", input_s.as_str(), "--format", fmt], vec!["parse", input_s.as_str()]] };
+            for args in argsets {
+                let o = proc::run_cli_stdout_unwritable(&sc, &args);
+                if is_f7_cli(&o) {
+                    return f7();
+                }
+                if let Err(e) = no_crash(&o) {
+                    return fail(&format!("standard output unwritable: {e}"), &o);
+                }
+                if o.stderr_s().contains("panicked") {
+                    return fail("standard output unwritable: panic message", &o);
+                }
+                let produces_output = args[0] == "parse" && c.input != 1 || args[0] == "report" && input_ok;
+                if produces_output && o.ok() {
+                    return fail("run reports success although nothing could be written to standard output", &o);
+                }
+                if !o.ok() && o.stderr.is_empty() {
+                    return fail("failed run printed no error", &o);
+                }
+            }
+            obs.nontrivial = true;
             Verdict::Pass
         }
         // parse command
